@@ -1,5 +1,5 @@
 NAME = 'K-undo'
-PROPERTIES = ['C14', 'C02', 'C15']
+PROPERTIES = ['C14', 'C02', 'C15', 'C13']
 ENGINE = 'verus'
 CLASS = 'U'
 DOC = ('Database::{rollback_to_savepoint, undo_change} (storage/database/core.rs): ROLLBACK TO SAVEPOINT applies the INVERSE of every change recorded '
@@ -117,6 +117,31 @@ impl Database {
     pub uninterp spec fn snapshot(&self) -> Option<Seq<Def>>;
     /// registry invariant: an entry is keyed by the normalized name of its definition
     pub open spec fn reg_wf(&self) -> bool { forall|x: Seq<char>| #![trigger self.reg().dom().contains(x)] self.reg().dom().contains(x) ==> nkey(self.reg()[x].index_name) == x }
+    /// d lists exactly the definitions registered: every registered index is in d, every entry of d is registered under its normalized name
+    pub open spec fn lists_registry(&self, d: Seq<Def>) -> bool {
+        &&& forall|x: Seq<char>| #![trigger self.reg().dom().contains(x)] self.reg().dom().contains(x) ==> exists|q: int| 0 <= q < d.len() && (#[trigger] d[q]) == self.reg()[x]
+        &&& forall|q: int| 0 <= q < d.len() ==> self.reg().dom().contains(nkey((#[trigger] d[q]).index_name)) && self.reg()[nkey(d[q].index_name)] == d[q]
+    }
+    // let catalog = &self.catalog.clone(); self.lifecycle.transaction_manager_mut().begin_transaction(catalog, &self.tables)   (unit X-sp: snapshot of catalog and tables as they are)
+    #[verifier::external_body]
+    fn tm_begin(&mut self) -> (r: Result<(), StorageError>)
+        ensures final(self).view() == old(self).view(), final(self).reg() == old(self).reg(), final(self).snapshot() == old(self).snapshot()
+    { unimplemented!() }
+    #[verifier::external_body]
+    fn tm_commit(&mut self) -> (r: Result<(), StorageError>)
+        ensures final(self).view() == old(self).view(), final(self).reg() == old(self).reg(), final(self).snapshot() == old(self).snapshot()
+    { unimplemented!() }
+    // self.operations.record_index_definitions(): `list_indexes().iter().filter_map(|name| get_index(name).cloned()).collect()` into indexes_at_begin
+    #[verifier::external_body]
+    fn record_index_definitions(&mut self)
+        ensures final(self).view() == old(self).view(), final(self).reg() == old(self).reg(),
+                final(self).snapshot() matches Some(d) && final(self).lists_registry(d)
+    { unimplemented!() }
+    // self.operations.forget_index_definitions()
+    #[verifier::external_body]
+    fn forget_index_definitions(&mut self)
+        ensures final(self).view() == old(self).view(), final(self).reg() == old(self).reg(), final(self).snapshot() is None
+    { unimplemented!() }
     // self.operations.take_index_definitions()  (Operations::indexes_at_begin.take())
     #[verifier::external_body]
     fn take_indexes_at_begin(&mut self) -> (r: Option<Vec<Def>>)
@@ -157,6 +182,10 @@ impl Database {
         ensures final(self).view() == old(self).view(), final(self).indexed() == old(self).indexed(), final(self).idx_fresh(*t), final(self).reg() == old(self).reg(),
                 forall|u: Str| old(self).idx_fresh(u) ==> final(self).idx_fresh(u)
     { unimplemented!() }
+
+//@@ begin_transaction
+
+//@@ commit_transaction
 
 //@@ rollback_transaction
 
@@ -210,6 +239,26 @@ ITEMS = {
             res is Ok ==> (old(self).since(name) is Some && final(self).view() == undo_last_first(old(self).view(), old(self).since(name).unwrap(), 0)),
 '''),
 
+    'begin_transaction': dict(
+        file=_F, path='impl Database::fn begin_transaction', ret='res',
+        rewrites=[('re', r'(?s)let catalog = &self\.catalog\.clone\(\);\s*self\.lifecycle\s*\.transaction_manager_mut\(\)\s*\.begin_transaction\(catalog, &self\.tables\)\?;', 'self.tm_begin()?;', 1),
+                  ('re', r'self\.operations\.record_index_definitions\(\);', 'self.record_index_definitions();', 1)],
+        contract='''
+        ensures
+            // a successful BEGIN records the definitions of exactly the user-defined indexes registered at that moment (the snapshot of catalog and tables: unit X-sp)
+            res is Ok ==> (final(self).snapshot() matches Some(d) && final(self).lists_registry(d)) && final(self).reg() == old(self).reg() && final(self).view() == old(self).view(),
+            res is Err ==> final(self).snapshot() == old(self).snapshot() && final(self).reg() == old(self).reg(),
+'''),
+    'commit_transaction': dict(
+        file=_F, path='impl Database::fn commit_transaction', ret='res',
+        rewrites=[('re', r'self\.lifecycle\.transaction_manager_mut\(\)\.commit_transaction\(\)\?;', 'self.tm_commit()?;', 1),
+                  ('re', r'self\.operations\.forget_index_definitions\(\);', 'self.forget_index_definitions();', 1)],
+        contract='''
+        ensures
+            // COMMIT touches neither table contents nor the index registry; it forgets the definitions recorded at BEGIN
+            final(self).view() == old(self).view(), final(self).reg() == old(self).reg(),
+            res is Ok ==> final(self).snapshot() is None,
+'''),
     'rollback_transaction': dict(
         file=_F, path='impl Database::fn rollback_transaction', ret='res',
         rewrites=[('re', r'self\.lifecycle\.perform_rollback\(&mut self\.catalog, &mut self\.tables\)\?;', 'self.perform_rollback()?; let ghost reg0__ = self.reg(); let ghost snap__ = self.snapshot();', 1),
@@ -266,6 +315,8 @@ ITEMS = {
 
 OBLIGATIONS = {
     'rollback_to_savepoint': ['post:undoes_the_changes_since_the_savepoint_last_first', 'proof:loop_invariant'],
+    'begin_transaction': ['post:records_the_definitions_of_exactly_the_registered_indexes'],
+    'commit_transaction': ['post:tables_and_registry_untouched__recorded_definitions_forgotten'],
     'rollback_transaction': ['post:the_set_of_indexes_is_the_one_at_begin__indexes_rebuilt_for_every_indexed_table', 'proof:loop_invariants'],
     'undo_change': ['post:applies_the_inverse_of_the_change__update_removes_the_new_row_and_restores_the_old_one', 'safety:table_exists_before_use'],
 }
@@ -275,7 +326,7 @@ TRUSTED = [
     'external_body tm_rollback_to_savepoint: TransactionManager::rollback_to_savepoint returns the changes recorded since the savepoint (proved on the real function in unit X-sp) and does not touch table contents',
     'external_body require_table / tbl_remove_row / tbl_insert (R12): get_table_mut(&name).ok_or_else(..)? followed by table.remove_row / table.insert, as operations on the bag of the named table. ASSUMED (proved on the real Table functions in unit K-table): remove_row removes exactly one row equal to the STORED FORM of the given row, insert adds its stored form; tbl_position_of / tbl_update_row = the position idiom (literal equality) and Table::update_row. Earlier wording: remove_row removes exactly one equal row or fails with RowNotFound (cf. unit K-table); insert adds exactly the given row (it was in this table before: already normalised)',
     'NOT under contract: that INSERT / UPDATE / DELETE executors RECORD every change (Database::insert_row does; UpdateExecutor / DeleteExecutor / REPLACE / ON DUPLICATE KEY UPDATE / FK cascades do since the two C14 fixes, shown by SQL reproductions only)',
-    'rollback_transaction: the registry of user-defined indexes as a map normalized name -> Def (IndexMetadata; Cols = Vec<IndexColumn> opaque) with external_body take_indexes_at_begin (`self.operations.take_index_definitions()`), list_indexes (exactly the registry keys), is_kept (the `get_index(..).is_some_and(|current| definitions.iter().any(|d| ..four field comparisons..))` statement, ASSUMED to decide "registered and its definition is one of those"), index_exists, drop_index, create_index (effects on the registry only; what an index is built from: unit I-resolve); nkey = normalize_index_name uninterpreted; precondition reg_wf (entries keyed by the normalized name of their definition). NOT under contract: that begin_transaction records exactly the current definitions and commit clears them',
+    'rollback_transaction: the registry of user-defined indexes as a map normalized name -> Def (IndexMetadata; Cols = Vec<IndexColumn> opaque) with external_body take_indexes_at_begin (`self.operations.take_index_definitions()`), list_indexes (exactly the registry keys), is_kept (the `get_index(..).is_some_and(|current| definitions.iter().any(|d| ..four field comparisons..))` statement, ASSUMED to decide "registered and its definition is one of those"), index_exists, drop_index, create_index (effects on the registry only; what an index is built from: unit I-resolve); nkey = normalize_index_name uninterpreted; precondition reg_wf (entries keyed by the normalized name of their definition). begin_transaction / commit_transaction: external_body tm_begin / tm_commit (the TransactionManager calls: unit X-sp), record_index_definitions (`list_indexes().iter().filter_map(|n| get_index(n).cloned()).collect()` in Operations: ASSUMED to list exactly the registry) and forget_index_definitions',
     'external_body perform_rollback (TransactionManager::rollback_transaction: snapshot restore, not under contract here), indexed_tables (the list_indexes / get_index iterator chain), rebuild_indexes (unit I-resolve): by assumed contracts; undo_change\'s own calls to rebuild_indexes are dropped from the bag view (they do not change table contents)',
     'row ORDER inside a table after a rollback is not part of the contract (undo re-appends rows)',
 ]
